@@ -8,8 +8,10 @@ observer's event factory must not disturb what later notifiers receive):
    the notifier of  holder.observe(handler, "d.items")   (dict_event_factory)
    plain recording notifier 2
 """
+import collections
 import sys
 import os
+import types
 
 sys.path.insert(0, os.path.dirname(os.path.abspath(__file__)))
 import dlib  # noqa: E402
@@ -102,6 +104,26 @@ def pairs(ps):
     return [(val(k), val(v)) for k, v in ps]
 
 
+def argument(kind, ps):
+    """The update / |= / constructor argument: a mapping of some class, or an iterable of pairs."""
+    ps = pairs(ps)
+    if kind == "map":
+        return dict(ps)
+    if kind == "ordered":
+        return collections.OrderedDict(ps)
+    if kind == "proxy":
+        return types.MappingProxyType(dict(ps))
+    if kind == "userdict":
+        return collections.UserDict(dict(ps))
+    if kind == "chainmap":
+        return collections.ChainMap(dict(ps))
+    if kind == "gen":
+        return (p for p in ps)
+    if kind == "tuple":
+        return tuple(ps)
+    return ps
+
+
 def amap(d, keep_order=False):
     items = [[atom(k), atom(v)] for k, v in d.items()]
     return items if keep_order else sorted(items)
@@ -167,7 +189,7 @@ def run_case(case):
             elif k == "DelItem":
                 del td[val(op[1])]
             elif k in ("Update", "Ior"):
-                arg = dict(pairs(op[2])) if op[1] == "map" else pairs(op[2])
+                arg = argument(op[1], op[2])
                 if k == "Update":
                     ret = retv(td.update(arg), k)
                 else:
